@@ -315,6 +315,139 @@ def case_cache(case, res):
                     'transitions': transitions})
 
 
+# ---- part D: concurrent cache operations, every interleaving of their source reads ----------
+
+def run_interleaving(scn, choices):
+    """Execute scenario scn = dict(size, l0, queries=[(length, index, tsc)], truncate=l|None) on a
+    fresh real MerkleCache under a hand-stepped loop.  `choices` is the prefix of decisions; after
+    it the first enabled action is taken.  Returns (trace of menus, taken, results, final cache)."""
+    from electrumx.lib.merkle import Merkle, MerkleCache
+    from vf.vloop import VLoop
+    loop = VLoop()
+    loop.enter()
+    try:
+        hs = [leaf(i) for i in range(scn['size'])]
+        pending = []
+
+        async def source(start, count):
+            fut = loop.create_future()
+            pending.append((fut, start, count))
+            await fut
+            if start < 0 or count < 0 or start + count > len(hs):
+                raise common.Broken('source read out of range')
+            return hs[start:start + count]
+
+        cache = MerkleCache(Merkle(), source)
+        init = loop.create_task(cache.initialize(scn['l0']))
+        loop.drain_ready()
+        while not init.done():
+            pending.pop(0)[0].set_result(None)
+            loop.drain_ready()
+        tasks = [loop.create_task(cache.branch_and_root(l, i, tsc_format=t))
+                 for l, i, t in scn['queries']]
+        trunc_left = [scn['truncate']] if scn.get('truncate') else []
+        menus, taken = [], []
+        pos = 0
+        while True:
+            loop.drain_ready()
+            menu = [('read', k) for k in range(len(pending))] + \
+                   [('truncate', l) for l in trunc_left[:1]]
+            if not menu:
+                break
+            c = choices[pos] if pos < len(choices) else 0
+            if c >= len(menu):
+                raise common.Broken('replay diverged: choice out of range')
+            menus.append(len(menu))
+            taken.append(c)
+            pos += 1
+            act = menu[c]
+            if act[0] == 'read':
+                pending.pop(act[1])[0].set_result(None)
+            else:
+                cache.truncate(trunc_left.pop(0))
+        results = []
+        for t in tasks:
+            if not t.done():
+                raise common.Broken('cache query never finished')
+            results.append(('err', repr(t.exception())) if t.exception() else ('ok', t.result()))
+        return menus, taken, results, cache, hs, loop, pending
+    except BaseException:
+        loop.close()
+        raise
+
+
+def case_concurrent(case, res):
+    scn = case['scn']
+    stack = [list(case.get('choices') or [])]
+    single = case.get('choices') is not None
+    while stack:
+        prefix = stack.pop()
+        menus, taken, results, cache, hs, loop, pending = run_interleaving(scn, prefix)
+        try:
+            res.count('interleavings')
+            res.distinct('interleaving_shapes', tuple(taken))
+            bad = None
+            for (length, index, tsc), (kind, val) in zip(scn['queries'], results):
+                levels = ref_levels(hs[:length])
+                want = (ref_branch(levels, index, tsc), levels[-1][0])
+                if scn.get('truncate'):
+                    # C12 does not speak of a truncate landing while a query is in flight (C11
+                    # does: there it comes with a reorganisation); only the cache left behind is
+                    # judged for these scenarios.
+                    res.count('in_flight_replies_not_judged')
+                    continue
+                if kind != 'ok' or (val[0], val[1]) != want:
+                    bad = dict(query=(length, index, tsc), got=kind if kind != 'ok' else 'wrong',
+                               error=val if kind != 'ok' else None)
+                    break
+            if bad is None:
+                # the cache left behind must still answer every query correctly
+                for length in range(1, len(hs) + 1, 3):
+                    levels = ref_levels(hs[:length])
+                    t = loop.create_task(cache.branch_and_root(length, length - 1))
+                    loop.drain_ready()
+                    while not t.done() and pending:
+                        pending.pop(0)[0].set_result(None)
+                        loop.drain_ready()
+                    if not t.done():
+                        raise common.Broken('post-state query blocked')
+                    if t.exception() or t.result() != (ref_branch(levels, length - 1, False),
+                                                       levels[-1][0]):
+                        bad = dict(after='all operations finished', length=length,
+                                   error=repr(t.exception()))
+                        break
+            if bad:
+                res.violation('cache:concurrent-operations',
+                              {'kind': 'concurrent', 'scn': scn, 'choices': taken},
+                              dict(scenario=scn, schedule=taken, **bad))
+        finally:
+            loop.close()
+        if single:
+            break
+        for i in range(len(prefix), len(taken)):
+            for alt in range(1, menus[i]):
+                stack.append(taken[:i] + [alt])
+
+
+def concurrent_cases(tier):
+    size = 40
+    lengths = [7, 17, 30, 40] if tier == 'quick' else [3, 7, 16, 17, 30, 33, 40]
+    cases = []
+    for l0 in (5, 16):
+        for la in lengths:
+            for lb in lengths:
+                for trunc in (None, 4, 9, 20):
+                    scn = dict(size=size, l0=l0, truncate=trunc,
+                               queries=[(la, la // 2, False), (lb, lb - 1, True)])
+                    cases.append({'kind': 'concurrent', 'scn': scn})
+        if tier != 'quick':
+            for trip in ((17, 30, 40), (40, 30, 7), (30, 30, 33)):
+                scn = dict(size=size, l0=l0, truncate=9,
+                           queries=[(l, l // 3, False) for l in trip])
+                cases.append({'kind': 'concurrent', 'scn': scn})
+    return cases
+
+
 def run_case(case, res):
     kind = case['kind']
     if kind == 'lists':
@@ -323,6 +456,8 @@ def run_case(case, res):
         case_branch_length(case, res)
     elif kind == 'cache':
         case_cache(case, res)
+    elif kind == 'concurrent':
+        case_concurrent(case, res)
     else:
         raise common.Broken(f'unknown case {case}')
 
@@ -340,24 +475,27 @@ def run(tier, seed, started):
     for s0 in range(1, size + 1):
         for l0 in range(1, s0 + 1):
             cases.append({'kind': 'cache', 'size': size, 's0': s0, 'l0': l0, 'depth': depth})
+    cases += concurrent_cases(tier)
     res = farm(run_case, cases, seed=seed)
     c = res.counters
     if not (c.get('lists') == N and c.get('cache_states', 0) > 50
-            and c.get('branch_length_inputs', 0) > 65536
+            and c.get('branch_length_inputs', 0) > 65536 and c.get('interleavings', 0) > 1000
             and res.sets.get('ev_kinds') == {'grow', 'extend', 'truncate', 'reorg'}):
         raise common.Broken(f'vacuous C12 run: {c} {res.sets.get("ev_kinds")}')
     coverage = {
         'states': c['cache_states'], 'transitions': c['cache_transitions'],
         'traces_validated_against_impl': c['cache_states'],
         'evaluations': c['list_queries'] + c['level_queries'] + c['branch_length_inputs']
-        + c['cache_queries'],
+        + c['cache_queries'] + c['interleavings'],
+        'interleavings_of_concurrent_cache_operations': c['interleavings'],
         'distinct_nontrivial': c['lists'] - 1 + c['cache_states'],
         'rule': (f'A: every list length 1..{N} x every index x classic/TSC x every cached-level '
                  f'depth; B: branch_length for every n <= 65536 and 2^k-1,2^k,2^k+1 for k <= 62; '
                  f'C: BFS over the real MerkleCache, source size <= {size}, every (initial source '
                  f'length, initial cache length) root, events grow/extend/truncate/reorg to depth '
                  f'{depth}; a state is non-trivial when it is distinct under the canonical form '
-                 f'(source length, cache length, depth, per-entry correctness of the level)'),
+                 f'(source length, cache length, depth, per-entry correctness of the level); D: every '
+                 f'interleaving of the source reads of 2-3 concurrent queries and a truncate'),
         'exhaustive': c.get('cache_depth_cap_hits', 0) == 0,
         'bounds': {'N': N, 'source_size': size, 'bfs_depth': depth,
                    'depth_cap_hits': c.get('cache_depth_cap_hits', 0)},
